@@ -87,6 +87,7 @@ func c08Transcripts() []c08Transcript {
 	{ // one run
 		t := mk("v3-one-run", 3)
 		a := ex("a", "echo", map[string]any{"payload": "some payload"})
+		a.HoldSigCh = true
 		t.groups = [][]rig.ExecSpec{{a}}
 		addDone(t, a)
 	}
@@ -103,6 +104,7 @@ func c08Transcripts() []c08Transcript {
 		t := mk("v3-concurrent-signals-errors", 3)
 		a, b, c := ex("a", "sig", nil), ex("b", "echo", map[string]any{"payload": map[string]any{"k": "v"}}), ex("c", "echo", map[string]any{"mode": "err"})
 		a.Emitted = true
+		b.HoldSigCh = true
 		t.groups = [][]rig.ExecSpec{{a, b, c}}
 		t.msgs = append(t.msgs, sigMsg("a", 1))
 		t.msgs = append(t.msgs, errMsg("", "unknown message ID received", false, false, "b"))
@@ -278,7 +280,11 @@ func c08Replay(t *c08Transcript, f c08Fault, s2cMode rig.Mode, chunkSeed uint64)
 								}
 							}()
 						}
-						o.Result = cli.Execute(schema.Input{RunID: o.Spec.RunID, ID: o.Spec.StepID, InputData: o.Spec.Input}, nil, from)
+						var toStep chan schema.Input
+						if o.Spec.HoldSigCh {
+							toStep = make(chan schema.Input) // stays open: the caller is not obliged to close it
+						}
+						o.Result = cli.Execute(schema.Input{RunID: o.Spec.RunID, ID: o.Spec.StepID, InputData: o.Spec.Input}, toStep, from)
 						atomic.AddInt32(&o.Returned, 1)
 					}()
 				}
